@@ -75,6 +75,20 @@ def result_lookup(e: ast.AST | None) -> tuple[ast.AST, ast.AST] | None:
     return None
 
 
+def result_lookup_via_local(u: Unit, e: ast.AST | None):
+    """The handler's result record may be looked up first and kept in a local that is None when there is nothing to record into:
+    `rec = None ... rec = <cur>.event_results.get(<k>) ... if rec is not None: rec.event_children.append(ev)`.  Returns (lookup parts, local name, the binding statement) or None."""
+    if not isinstance(e, ast.Name):
+        return None
+    defs = [n for n in own_nodes(u.node) if isinstance(n, (ast.Assign, ast.AnnAssign)) and n.value is not None
+            and any(isinstance(t, ast.Name) and t.id == e.id for t in (n.targets if isinstance(n, ast.Assign) else [n.target]))]
+    real = [d for d in defs if not (isinstance(d.value, ast.Constant) and d.value.value is None)]
+    if len(real) != 1:
+        return None
+    lk = result_lookup(real[0].value)
+    return (lk, e.id, real[0]) if lk is not None else None
+
+
 def lineage_writes(c: Ctx):
     d = c.unit(SVC, 'EventBus.dispatch')
     pid = [w for w in c.cg.writes[d.key] if w.attr == 'event_parent_id' and w.how == 'assign']
@@ -100,11 +114,13 @@ def c09_3(c: Ctx) -> None:
                 b = b.func if isinstance(b, ast.Call) else b.value
             if isinstance(b, ast.Attribute):
                 cur = U(b.value)
+            elif (vl := result_lookup_via_local(d, w.base)) is not None:
+                cur = U(vl[0][0])
         if cur is None:
             c.fail(d, f'{what}: cannot identify the current event in {U(w.node)[:70]}', 'lineage write of unrecognised shape', node=w.node)
             continue
         atom = eq_atom(f'{ev}.event_id', f'{cur}.event_id')
-        facts = Facts(lambda a: a == atom, cg=c.cg, unit=d)
+        facts = Facts(lambda a: a == atom or a.isidentifier(), cg=c.cg, unit=d)  # (plain locals too: the record may be carried in one that is None when there is nothing to do)
         for n in g.nodes_of(q.stmt_of(w.node)):
             p = q.guard_search(g, n, f'{ev}.event_id != {cur}.event_id', facts)
             if p is None:
@@ -123,6 +139,8 @@ def c09_4(c: Ctx) -> None:
     for w in kids:
         tgt = w.base  # <cur>.event_results[<hid>]
         lk = result_lookup(tgt)
+        if lk is None and (vl := result_lookup_via_local(d, tgt)) is not None:
+            lk = vl[0]
         ok = lk is not None and isinstance(lk[0], ast.Name) and isinstance(lk[1], ast.Name)
         if not ok:
             c.fail(d, f'children appended to {U(tgt)[:70] if tgt is not None else "?"}', 'the child is not attributed to <current event>.event_results[<current handler id>]', node=w.node)
@@ -182,16 +200,22 @@ def check_child_registration_guards(c: Ctx) -> None:
         tgt = w.base
         cur = hid = None
         lk = result_lookup(tgt)
+        extra_sites: list[ast.AST] = []
+        local_guards: set[str] = set()
+        if lk is None and (vl := result_lookup_via_local(d, tgt)) is not None:
+            lk = vl[0]
+            local_guards = {f'{vl[1]} is not None', vl[1]}
+            extra_sites = [vl[2]]  # the conditions under which the record is looked up count as conditions of the registration
         if lk is not None and isinstance(lk[0], ast.Name) and isinstance(lk[1], ast.Name):
             cur, hid = lk[0].id, lk[1].id
-        allowed = {
+        allowed = local_guards | {
             f'{cur}.event_results.get({hid}) is not None', f'{cur}.event_results.get({hid})',  # "has a result for that handler", spelled as a lookup
             f'{hid} is not None', f'{hid}', f'{cur} is not None', f'{cur}', 'inside_handler_context.get()', f'{hid} in {cur}.event_results',
             f'{ev}.event_id != {cur}.event_id', f'{cur}.event_id != {ev}.event_id', f'{self_}.event_queue', f'{self_}.event_queue is not None',
         }
         bad = []
-        for a in [a for a in q.ancestors_of(w.node) if isinstance(a, ast.If)]:
-            in_body = q.lexically_in(w.node, a, 'body')
+        for site, a in [(site, a) for site in [w.node] + extra_sites for a in q.ancestors_of(site) if isinstance(a, ast.If)]:
+            in_body = q.lexically_in(site, a, 'body')
             conj = a.test.values if isinstance(a.test, ast.BoolOp) and isinstance(a.test.op, ast.And) else [a.test]
             if not in_body:
                 neg = negated_conjuncts(a.test)
